@@ -15,7 +15,8 @@ def plainChar (c : Nat) : Bool :=
 theorem identChar_plain {c : Nat} (h : isIdentChar c = true) : plainChar c = true := by
   simp only [isIdentChar, isIdentStart, Bool.or_eq_true, Bool.and_eq_true, decide_eq_true_eq, beq_iff_eq] at h
   have hw : isWs c = false := by
-    simp only [isWs, Bool.or_eq_false_iff, Bool.and_eq_false_iff, decide_eq_false_iff_not, beq_eq_false_iff_ne]
+    have h128 : c < 128 := by omega
+    simp only [isWs, h128, if_true, Bool.or_eq_false_iff, Bool.and_eq_false_iff, decide_eq_false_iff_not]
     omega
   have h1 : c ≠ 40 ∧ c ≠ 41 ∧ c ≠ 91 ∧ c ≠ 93 ∧ c ≠ 42 := by omega
   simp only [plainChar, hw, Bool.not_false, Bool.and_true, Bool.not_eq_true', Bool.or_eq_false_iff,
